@@ -54,17 +54,29 @@ func checkC01(c *km.Ctx) {
 	}
 
 	flag := findLevelFlag(h)
+	var decision *ssa.Call
 	if flag == nil {
-		r.AnchorLost("R-C01-2", "boolean level flag tested before issuing in certGenHandler")
-		return
+		decision = findLevelDecision(c, s, h)
+		if decision == nil {
+			r.AnchorLost("R-C01-2", "level decision of certGenHandler (a boolean flag tested before issuing, or a helper given the session level and the configured list)")
+			return
+		}
+		checkLevelDecision(c, s, decision)
+	} else {
+		checkLevelFlag(c, s, h, flag)
 	}
-	checkLevelFlag(c, s, h, flag)
 
 	prUnsealed := s.PrimUnsealed()
 	prAuthed := s.PrimAuthed()
 	prPost := s.PrimMethod("POST")
 	prSufficient := km.Prim{Name: "Sufficient", Direct: func(f km.Fact) bool {
-		return f.Op == token.ILLEGAL && f.Pol && f.X == ssa.Value(flag)
+		if f.Op != token.ILLEGAL || !f.Pol {
+			return false
+		}
+		if flag != nil {
+			return f.X == ssa.Value(flag)
+		}
+		return f.X == ssa.Value(decision)
 	}}
 	prTarget := km.Prim{Name: "target==authUser", Direct: func(f km.Fact) bool {
 		if f.Op != token.EQL {
@@ -276,75 +288,11 @@ func checkLevelFlag(c *km.Ctx, s *km.Sem, h *ssa.Function, flag *ssa.Phi) {
 				// every way of reaching this assignment (every disjunct of the facts on the edge) must carry one of
 				// the three licences; extra conjuncts only make the grant stricter and are of no concern here
 				edge := c.F.OnEdge(pred, p.Block())
-				constOf := func(k km.Conj, v ssa.Value) (int64, bool) {
-					if kv, ok := km.ConstInt(v); ok {
-						return kv, true
-					}
-					v = km.Unwrap(v)
-					for _, g := range k.List() {
-						if g.Op == token.EQL && g.X == v {
-							if kv, ok := km.ConstInt(g.Y); ok {
-								return kv, true
-							}
-						}
-					}
-					return 0, false
-				}
 				var descs []string
 				ok := len(edge) > 0
 				for _, k := range edge {
-					var listed []string
-					var bits []int64
-					for _, f := range k.List() {
-						if f.Op == token.EQL {
-							if cs, isC := km.ConstString(f.Y); isC && isListed(f.X) {
-								listed = append(listed, cs)
-								continue
-							}
-						}
-						// (level & K) == K or (level & K) != 0, K a constant or a value this path pins to a constant
-						if b, isB := f.X.(*ssa.BinOp); isB && b.Op == token.AND {
-							var kval ssa.Value
-							if s.Is(b.X, km.RoleAuthLevel) {
-								kval = b.Y
-							} else if s.Is(b.Y, km.RoleAuthLevel) {
-								kval = b.X
-							}
-							if kval == nil {
-								continue
-							}
-							kv, isK := constOf(k, kval)
-							if !isK {
-								continue
-							}
-							if f.Op == token.EQL {
-								if y, isY := constOf(k, f.Y); isY && y == kv {
-									bits = append(bits, kv)
-								}
-							} else if f.Op == token.NEQ {
-								if y, isY := km.ConstInt(f.Y); isY && y == 0 && kv != 0 && kv&(kv-1) == 0 {
-									bits = append(bits, kv)
-								}
-							}
-						}
-					}
-					good := false
-					for _, l := range listed {
-						if protoByVal[l] == "AuthTypePassword" {
-							good = true
-						}
-						for _, bt := range bits {
-							if protoByVal[l] != "" && protoByVal[l] == mainByVal[bt] {
-								good = true
-							}
-						}
-					}
-					for _, bt := range bits {
-						if bt == u2fBit {
-							good = true
-						}
-					}
-					descs = appendUniq(descs, sprintf("listed=%v bits=%v ok=%v", listed, bitNames(bits, mainByVal), good))
+					d, good := levelLicence(c, s, k, isListed, protoByVal, mainByVal, u2fBit)
+					descs = appendUniq(descs, d)
 					if !good {
 						ok = false
 					}
@@ -371,4 +319,196 @@ func bitNames(bits []int64, names map[int64]string) []string {
 		}
 	}
 	return out
+}
+
+// levelLicence: does one conjunction of facts license "sufficient"? listed=='password', or listed==K together with
+// the level having bit K (same constant name in proto and main), or the level having the U2F bit. Bit tests made
+// inside a helper (hasAuthType(k)) are seen through, with the helper's parameter resolved to the argument and the
+// argument's constant taken from this conjunction.
+func levelLicence(c *km.Ctx, s *km.Sem, k km.Conj, isListed func(ssa.Value) bool, protoByVal map[string]string, mainByVal map[int64]string, u2fBit int64) (string, bool) {
+	constOf := func(v ssa.Value) (int64, bool) {
+		if kv, ok := km.ConstInt(v); ok {
+			return kv, true
+		}
+		v = km.Unwrap(v)
+		for _, g := range k.List() {
+			if g.Op == token.EQL && g.X == v {
+				if kv, ok := km.ConstInt(g.Y); ok {
+					return kv, true
+				}
+			}
+		}
+		return 0, false
+	}
+	var listed []string
+	var bits []int64
+	bitFact := func(f km.Fact, resolve func(ssa.Value) ssa.Value) {
+		b, isB := f.X.(*ssa.BinOp)
+		if !isB || b.Op != token.AND {
+			return
+		}
+		var kval ssa.Value
+		if s.Is(b.X, km.RoleAuthLevel) {
+			kval = b.Y
+		} else if s.Is(b.Y, km.RoleAuthLevel) {
+			kval = b.X
+		}
+		if kval == nil {
+			return
+		}
+		kv, isK := constOf(resolve(kval))
+		if !isK {
+			return
+		}
+		if f.Op == token.EQL {
+			if y, isY := constOf(resolve(f.Y)); isY && y == kv {
+				bits = append(bits, kv)
+			}
+		} else if f.Op == token.NEQ {
+			if y, isY := km.ConstInt(f.Y); isY && y == 0 && kv != 0 && kv&(kv-1) == 0 {
+				bits = append(bits, kv)
+			}
+		}
+	}
+	ident := func(v ssa.Value) ssa.Value { return km.Unwrap(v) }
+	for _, f := range k.List() {
+		if f.Op == token.EQL {
+			if cs, isC := km.ConstString(f.Y); isC && isListed(f.X) {
+				listed = append(listed, cs)
+				continue
+			}
+		}
+		bitFact(f, ident)
+	}
+	// bit tests inside helpers: a collecting proposition that is never true
+	s.Holds(k, km.Prim{Name: "collect bit tests", Rel: func(f km.Fact, resolve func(ssa.Value) ssa.Value) bool {
+		bitFact(f, resolve)
+		return false
+	}})
+	good := false
+	for _, l := range listed {
+		if protoByVal[l] == "AuthTypePassword" {
+			good = true
+		}
+		for _, bt := range bits {
+			if protoByVal[l] != "" && protoByVal[l] == mainByVal[bt] {
+				good = true
+			}
+		}
+	}
+	for _, bt := range bits {
+		if bt == u2fBit {
+			good = true
+		}
+	}
+	sort.Slice(bits, func(i, j int) bool { return bits[i] < bits[j] })
+	var ub []int64
+	for i, b := range bits {
+		if i == 0 || bits[i-1] != b {
+			ub = append(ub, b)
+		}
+	}
+	return sprintf("listed=%v bits=%v ok=%v", listed, bitNames(ub, mainByVal), good), good
+}
+
+// findLevelDecision: when the level test lives in a helper, the call in the handler whose boolean result decides
+// (a keymasterd function given the session's level - as receiver or argument - and the configured list).
+func findLevelDecision(c *km.Ctx, s *km.Sem, h *ssa.Function) *ssa.Call {
+	var found *ssa.Call
+	for _, ci := range km.CallsIn(h) {
+		cl, ok := ci.(*ssa.Call)
+		if !ok {
+			continue
+		}
+		g := km.StaticCallee(cl.Common())
+		if g == nil || g.Blocks == nil || g.Pkg == nil || g.Pkg.Pkg.Path() != KMD {
+			continue
+		}
+		res := g.Signature.Results()
+		if res.Len() != 1 || res.At(0).Type().String() != "bool" {
+			continue
+		}
+		hasLevel, hasList := false, false
+		for _, a := range km.CallArgs(cl.Common()) {
+			if s.Is(a, km.RoleAuthInfo) || s.Is(a, km.RoleAuthLevel) {
+				hasLevel = true
+			}
+			if mentionsField(a, "AllowedAuthBackendsForCerts") {
+				hasList = true
+			}
+		}
+		if !hasList {
+			// the helper reads the configured list itself
+			km.Instrs(g, func(in ssa.Instruction) {
+				if u, ok := in.(*ssa.UnOp); ok && mentionsField(u, "AllowedAuthBackendsForCerts") {
+					hasList = true
+				}
+			})
+		}
+		if hasLevel && hasList {
+			found = cl
+		}
+	}
+	return found
+}
+
+// checkLevelDecision judges a decision helper: every path on which it can return true carries a licence.
+func checkLevelDecision(c *km.Ctx, s *km.Sem, call *ssa.Call) {
+	protoByVal, mainByVal := constNameTables(c)
+	if len(protoByVal) < 7 || len(mainByVal) < 9 {
+		c.R.AnchorLost("R-C01-2", "AuthType* constant tables (proto strings / main bits)")
+		return
+	}
+	u2fBit := authTypeConsts(c)["AuthTypeU2F"]
+	d := km.StaticCallee(call.Common())
+	// the configured list inside the helper: the parameter the handler binds to the configuration field
+	var listParam *ssa.Parameter
+	for i, a := range km.CallArgs(call.Common()) {
+		if mentionsField(a, "AllowedAuthBackendsForCerts") && i < len(d.Params) {
+			listParam = d.Params[i]
+		}
+	}
+	isListed := func(v ssa.Value) bool {
+		u, ok := km.Unwrap(v).(*ssa.UnOp)
+		if !ok || u.Op != token.MUL {
+			return false
+		}
+		ia, ok := u.X.(*ssa.IndexAddr)
+		if !ok {
+			return false
+		}
+		if listParam != nil && km.Unwrap(ia.X) == ssa.Value(listParam) {
+			return true
+		}
+		_, path, ok := km.FieldPath(ia.X)
+		return ok && strings.HasSuffix(path, "Base.AllowedAuthBackendsForCerts")
+	}
+	n := 0
+	for _, rc := range s.RetCases(d) {
+		v := km.Unwrap(rc.Results[0])
+		var descs []string
+		ok, nTrue := true, 0
+		for _, k := range rc.State {
+			kk, mayBeTrue := s.TrueFacts(k, v)
+			if !mayBeTrue {
+				continue
+			}
+			nTrue++
+			ds, good := levelLicence(c, s, kk, isListed, protoByVal, mainByVal, u2fBit)
+			descs = appendUniq(descs, ds)
+			if !good {
+				ok = false
+			}
+		}
+		if nTrue == 0 {
+			continue
+		}
+		n++
+		sort.Strings(descs)
+		c.R.Add("R-C01-2", km.FuncName(d), "sufficient := true", posOf(c, rc.Ret), "on every path on which the decision is true: listed=='password', or listed==K ∧ level has bit K (same constant name in proto and main), or level has the U2F bit", clipS(strings.Join(descs, " | "), 600), ok)
+	}
+	// the only other results are the constant false (a refusal needs no licence)
+	if n == 0 {
+		c.R.AnchorLost("R-C01-2", "a return of "+d.Name()+" that can be true")
+	}
 }
